@@ -679,7 +679,7 @@ auto slab_pool<Policy, Mutex>::_construct_slab(int index)
 
 	// Partition the slab into individual objects.
 	freelist *first = nullptr;
-	for(size_t off = 0; off < slb->length; off += item_size) {
+	for(size_t off = 0; off + item_size <= slb->length; off += item_size) {
 		if constexpr (has_poisoning)
 			_plcy.unpoison(reinterpret_cast<void *>(slb->address + off), sizeof(freelist));
 		auto object = new (reinterpret_cast<void *>(slb->address + off)) freelist;
